@@ -39,8 +39,9 @@ prop("C04", "proof",
      "Proved: every proof with an identity among Abar, Bbar, D is rejected both by the decoder and by the verifier itself (the F1 universal-forgery family, repaired by "
      "commit fc846b8), only 272 + 32 k octets decode, and an accepted proof pins its challenge to the hash of the recomputed (T1, T2, domain, disclosed data, ph) and satisfies "
      "the pairing equation with non-identity points; proof_statement_binding: one proof accepted for two statements constructs an explicit collision of the challenge hash unless "
-     "disclosed positions, disclosed scalars, presentation header and domain agree (challenge_octets_inj: the encoding is injective). PARTIAL: bit flips of the proof and the "
-     "special-soundness extractor are "
+     "disclosed positions, disclosed scalars, presentation header and domain agree (challenge_octets_inj: the encoding is injective); proof_special_soundness: two accepted transcripts with the "
+     "same Abar, Bbar, D, T1, T2 and different challenges determine e, r1, r3 and the hidden scalars by explicit formulas with Bbar = D r1 - Abar e, B = D r3 and "
+     "(sk + e) r3 Abar = r1 B (a signature on the disclosed + extracted messages; r1 = 0 gives sk = -e, r3 = 0 gives B = O). PARTIAL: bit flips of the proof are "
      "decided by correspondence (the model's decision on every mutated instance equals zkryptium's) + sweep: all single-bit flips of proofs, whole-scalar truncation / extension, "
      "statement edits, and forgeries built without a signature (identity / Bv / P1 / Q1 families, torsion pairs outside the subgroup that cancel).", "DESIGN.md §10 C04")
 prop("C05", "proof",
@@ -50,7 +51,8 @@ prop("C05", "proof",
      "2^L x 2^M pairs for small shapes, byte for byte with logged randomness.", "DESIGN.md §10 C05")
 prop("C06", "proof",
      "Proved: gating (blind_sign returns a signature only if the commitment is absent or core_commit_verify accepted it against this suite's blind generators), strict framing "
-     "(only 112 + 32 k octets decode; canonical re-encoding), accepted commitment proofs pin the challenge to the hash of (M, generators, C, recomputed Cbar). PARTIAL: rejection "
+     "(only 112 + 32 k octets decode; canonical re-encoding), accepted commitment proofs pin the challenge to the hash of (M, generators, C, recomputed Cbar); commit_special_soundness: two accepted "
+     "transcripts with the same Cbar and different challenges give an opening of C over the blind generators by explicit formulas. PARTIAL: rejection "
      "of bit-flipped / transplanted / cross-suite commitments and binding of blind signatures and blind proofs rest on collision resistance: correspondence + sweep (all "
      "single-bit flips of commitments and blind proofs, scalar- and byte-granular resizing, cross-suite, edits of every input), history pass for state-dependent acceptance.",
      "DESIGN.md §10 C06")
@@ -88,7 +90,7 @@ prop("C12", "proof",
 
 prop("C13", "proof",
      "Coq theorems over Z (model's modexp proved equal to b^e mod n): cl_sign_verify_complete -- every signature sign_multiattr returns verifies, for any number of attributes, "
-     "any bases coprime to N, any draws (premise: Euler's theorem for N, true for N = p q); e leaves the loop with exactly le bits and coprime to phi; shift_forgery_rejected "
+     "any bases coprime to N, any draws (premise: Euler's theorem for N, true for N = p q); e leaves the loop with exactly le bits and coprime to phi; disclose_verify_complete -- for every list of hidden positions (any order, repetitions) disclose_selectively succeeds and the signature verifies on the disclosed (bases', msgs'); shift_forgery_rejected "
      "(m_i + k e is refused whatever v: F7, repaired by c3225ee) with the pinned tree's acceptance kept as a machine-checked finding; non-canonical v refused (F14, 222458b). "
      "Tied to the code by integer-for-integer correspondence of sign / verify / disclose / codecs under the production RNG (draw kinds and bit lengths included) on a toy suite "
      "and CL1024, and a sweep of every negative class the property lists. PARTIAL: 'other attribute vector / other bases / other key is rejected' rests on the strong RSA "
